@@ -87,7 +87,7 @@ func (s *Script) String() string {
 }
 
 // Error kinds a handler can return.
-var errKinds = []string{"notfound", "plain", "ctx-canceled", "ctx-deadline", "internal-empty", "wrapped", "aborted-long"}
+var errKinds = []string{"notfound", "plain", "ctx-canceled", "ctx-deadline", "internal-empty", "wrapped", "aborted-long", "status-canceled", "status-deadline"}
 
 func single(shape string) bool { return shape == Unary || shape == UAS || shape == CStream }
 
@@ -300,7 +300,7 @@ func ending(sc *Script, s *state) string {
 	switch s.retErr {
 	case "":
 		return "ok"
-	case "ctx-canceled", "ctx-deadline":
+	case "ctx-canceled", "ctx-deadline", "status-canceled", "status-deadline":
 		return "server-returns-" + s.retErr
 	}
 	return "error"
